@@ -4,8 +4,10 @@ import json, glob, os
 rows = []
 for p in sorted(glob.glob('/verif/seeded/*/meta.json')):
     m = json.load(open(p))
-    first_missed = 'MISSED' in m['detected_by']
-    rows.append((m['name'], m['property'], m['needs_to_manifest'], m['detected_by'], first_missed))
+    note = m.get('note', '')
+    first_missed = 'MISSED' in m['detected_by'] or 'missed in the first round' in note
+    det = m['detected_by'] + (f" — {note}" if note else '')
+    rows.append((m['name'], m['property'], m['needs_to_manifest'], det, first_missed))
 print('| seeded change | property | needs, to manifest | detection (quick tier, seed 1) |')
 print('|---|---|---|---|')
 for n, p, needs, det, fm in rows:
